@@ -57,6 +57,7 @@ static void cov_flush(Replicas& reps) {
     for (auto r : reps.all) if (r->handle) { auto f = (int (*)(void)) dlsym(r->handle, "jv_cov_flush"); if (f) f(); }
 }
 
+void conc_protect_modules(Replicas& reps);   // sc_conc.cpp
 static std::string g_arm_note;
 // All replica sets are loaded through here: the dlopen-ed builds plus the interpreted ARM back ends (C03).
 static bool load_all(Replicas& reps, std::string& err) {
@@ -573,6 +574,7 @@ int run_check(const std::string& prop, const std::string& tier, uint64_t seed, i
     printf("jsim check %s tier=%s seed=%llu flavour=%s workers=%d replicas=%s\n", prop.c_str(), tier.c_str(), (unsigned long long) seed, flavour().c_str(), workers, replica_dir().c_str());
     fflush(stdout);
 
+    if (prop == "C20" && flavour() == "plain") conc_protect_modules(reps);
     // static phases (run in the parent; deterministic facts such as the ABI table)
     if (!st.violated) for (auto& ph : spec.static_phases) {
         if (!ph(st)) break;
